@@ -560,8 +560,10 @@ def _loop_exit_skips(view, real):
 def with_order(chk, rid):
   repo = chk.repo
   v = FnView(repo, 'universe.SubqueryTranslator.TranslateWithedTable')
+  # attributes of the execution may be held in locals: read through them
+  W = lambda e: norm(v.expand(e, 3), 400)
   apps = [(n, c) for n, c in v.all_calls() if call_tail(c) == 'append' and
-          'table_to_with_dependencies' in norm(c.func)]
+          'table_to_with_dependencies' in W(c.func)]
   ps = v.calls('universe.LogicaProgram.PredicateSql')
   if not ps:
     raise AnalysisError('TranslateWithedTable no longer calls PredicateSql')
@@ -578,7 +580,7 @@ def with_order(chk, rid):
            'dependencies are compiled: WITH tables are defined after use',
            fi=v.fi, node=c)
     dedupe = any(isinstance(e, ast.Compare) and isinstance(e.ops[0], ast.NotIn) and val
-                 and 'table_to_with_dependencies' in norm(e) for e, val in v.guards(n))
+                 and 'table_to_with_dependencies' in W(e) for e, val in v.guards(n))
     chk.ob(rid, dedupe, None, 'append guarded against duplicates',
            'a WITH table can be listed twice (duplicate definition)', fi=v.fi, node=c)
     chk.ob(rid, dotted(c.args[0]) == 'table' if c.args else False, None,
@@ -588,13 +590,13 @@ def with_order(chk, rid):
   for s_ in ps:
     facts = v.guards(s_[0])
     first = any(val and isinstance(e, ast.Compare) and isinstance(e.ops[0], ast.NotIn) and
-                'table_to_defined_table_map' in norm(e) for e, val in facts)
+                'table_to_defined_table_map' in W(e) for e, val in facts)
     if first:
       continue
     other = [norm(e, 60) for e, val in facts
-             if 'table_to_defined_table_map' not in norm(e) and
-             'with_compilation_done_for_parent' not in norm(e)]
-    per_parent = any(val and 'with_compilation_done_for_parent' in norm(e) and
+             if 'table_to_defined_table_map' not in W(e) and
+             'with_compilation_done_for_parent' not in W(e)]
+    per_parent = any(val and 'with_compilation_done_for_parent' in W(e) and
                      isinstance(e, ast.Compare) and isinstance(e.ops[0], ast.NotIn)
                      for e, val in facts)
     chk.ob(rid, per_parent and not other, None,
@@ -604,7 +606,7 @@ def with_order(chk, rid):
            'for that parent and its WITH clause uses an undefined table' % other,
            fi=v.fi, node=s_[1])
   hdrs = [n for n in v.cfg.stmt_nodes() if isinstance(v.cfg.stmt[n], ast.If) and
-          'table_to_with_dependencies' in norm(v.cfg.stmt[n].test)]
+          'table_to_with_dependencies' in W(v.cfg.stmt[n].test)]
   chk.ob(rid, bool(hdrs) and v.cfg.must_pass_after(v.cfg.entry, hdrs), None,
          'every call considers recording the dependency',
          'a path returns the WITH table name without recording it for the '
